@@ -2004,9 +2004,16 @@ def add(
         trust_ctime = config.get_boolean(b"core", b"trustctime", True)
         precompose_unicode = config.get_boolean(b"core", b"precomposeunicode", False)
 
+        honor_filemode = config.get_boolean(b"core", b"filemode", os.name != "nt")
+
         all_unstaged_paths = list(
             get_unstaged_changes(
-                index, r.path, filter_callback, preload_index, trust_ctime
+                index,
+                r.path,
+                filter_callback,
+                preload_index,
+                trust_ctime,
+                honor_filemode=honor_filemode,
             )
         )
 
@@ -3938,6 +3945,7 @@ def status(
         except KeyError:
             max_stat = None
         precompose_unicode = config.get_boolean(b"core", b"precomposeunicode", False)
+        honor_filemode = config.get_boolean(b"core", b"filemode", os.name != "nt")
 
         unstaged_changes_tree = list(
             get_unstaged_changes(
@@ -3947,6 +3955,7 @@ def status(
                 preload_index,
                 trust_ctime,
                 max_stat,
+                honor_filemode,
             )
         )
 
